@@ -29,6 +29,7 @@ TRUSTED_REASONS = {
     'external_body: lex_hostport': 'enumerate().find(): contract Some(n) ==> n <= len assumed; reached by Kani harness lexing.url_4 (bounded)',
     'external_body: validate_scheme': 'iter().all(): arbitrary total bool',
     'external_body: lex_ip_schemepart': 'slice pattern; contract assumed; Kani harness lexing.url_4 (bounded)',
+    'external_body: condense_indices': 'peekable()-based body; contract assumed in Verus, checked by rac:condense_indices (bounded: len<=7, stretch<=3)',
     'external_body: clone': 'the derived Clone of Token returns an equal value',
     # --- opaque data / total predicates with NO postcondition ---
     'external_body: is_': 'TokenKind/char predicate used only as an arbitrary total bool',
